@@ -8,6 +8,7 @@ import tempfile
 import time
 from pathlib import Path
 
+from tools.corr import C10_history as hist
 from tools.corr.C09_runner import KProperty, RealEvaluator, is_sub_threshold, physical_point
 from tools.corr.C10_defs import (
     MARKER_D,
@@ -138,7 +139,7 @@ def build():
         "gen_extra": occurrence_lean(rows),
         "occurrence_rows": len(rows),
         "n3_relativistic_pvector_entries": "not_extracted (the library's own RelativisticPVector._create_matrices(3) does not return: sympy's default symbolic inverse does not finish, see notes/findings_C10.md); covered by the all-n theorem, and in the thorough tier numerically with sympy's inversion method replaced",
-        "observation": "_create_matrices returns functools.cache'd mutable matrices when parametrize=False; C10 quantifies over inputs, not call histories",
+        "observation": "_create_matrices returns functools.cache'd mutable matrices when parametrize=False (a caller MUTATING them changes later results: outside this property); call histories without mutation are covered by tools/corr/C10_history.py",
     }
     return b.out, {}, info
 
@@ -349,9 +350,27 @@ def honour_cases(rng, tier: str):
     return bad, n, sorted(reg)
 
 
+_HISTORY: dict = {"bad": []}
+
+
+def _history_tie(chk, ctx):
+    """Call histories in one process: correspondence with Model/C10History.lean + history oracle
+    (occurrences by identity, residual with the passed objects, purity vs reversed history / fresh process)."""
+    _HISTORY["bad"] = []
+    try:
+        _HISTORY["bad"] = hist.run(chk, common.rng_for("C10", ctx["seed"], "history"), ctx["tier"], ctx["seed"])
+    except common.InfraError:
+        raise
+    except Exception as e:  # noqa: BLE001
+        import traceback
+
+        chk.broken_correspondence("history", "".join(traceback.format_exception(type(e), e, e.__traceback__))[-900:])
+
+
 def search(chk, rng, n_cases: int, tier: str):
     t0 = time.time()
     bad, n_occ, impls = honour_cases(rng, tier)
+    bad = [*_HISTORY["bad"], *bad]
     chk.count(("honour", tuple(impls)), n_occ)
     chk.info("phase_space_implementations_checked", impls)
     # residuals
@@ -512,7 +531,9 @@ def signature_of(f: dict) -> dict:
 def replay(data: dict) -> int:
     common.use_repo_source()
     case = data.get("input", data)
-    print(json.dumps({k: v for k, v in case.items() if k != "values"}, indent=1, default=str))
+    print(json.dumps({k: v for k, v in case.items() if k not in ("values", "history_payload")}, indent=1, default=str))
+    if "history_payload" in case:
+        return hist.replay_history(case)
     if "passed" in case:
         import sympy as sp
 
@@ -544,25 +565,28 @@ PROP = KProperty(
     namespace="C10",
     build=build,
     search=search,
-    prop_modules=["Ampverif.Props.C10"],
+    prop_modules=["Ampverif.Props.C10", "Ampverif.Props.C10History"],
     signature_of=signature_of,
+    post=_history_tie,
     n_points={"quick": 5, "thorough": 30},
     n_search={"quick": 48, "thorough": 600},
     ld_symbols=(MARKER_L, MARKER_D),
     trusted=(
         "phase-space factors and form factors are leaves of the Lean model; the marker phase-space class is defined by the harness with ampform's public @unevaluated decorator",
         "occurrence sets are collected by a preorder traversal of the real sympy objects (tools/corr/C10_defs.py occurrences)",
+        "history tie: the skeleton canonicaliser of tools/corr/C10_history.py (identity of EnergyDependentWidth.phsp_factor, "
+        "equality of L / radius, class identity of phase-space nodes) and its independent numpy solution of the K-matrix equation",
     ),
 )
 
 MANIFEST = {
-    "technique": "Lean 4 theorems over definitions and an occurrence table regenerated from kmatrix.py (translator with marker arguments), Float-twin validation, numeric residual/occurrence oracle on formulate()",
+    "technique": "Lean 4 theorems over definitions and an occurrence table regenerated from kmatrix.py (translator with marker arguments), Float-twin validation, numeric residual/occurrence oracle on formulate(); call histories: Lean state machine with a process-global cache + history correspondence + history oracle",
     "design_ref": "DESIGN.md §3 C10",
     "text": (
         "Proof. The F-vector entries of formulate(parametrize=False) for n = 1, 2 (NonRelativisticPVector, RelativisticPVector with and "
         "without return_f_hat), the library's K and P parametrisations, the full formulate(n, n_R) results for n, n_R ∈ {1,2}, the "
         "Breit-Wigner functions and an occurrence table are re-translated from the working tree on every run (formulate is called with a "
-        "marker phase-space class, marker angular momentum and marker radius). 57 theorems re-checked by the kernel: (1−iK)F = P and "
+        "marker phase-space class, marker angular momentum and marker radius). 57 theorems (Props/C10.lean) re-checked by the kernel: (1−iK)F = P and "
         "(1−iK̂ρ)F̂ = P with K̂ = (√ρ*)⁻¹K(√ρ)⁻¹, F = √ρF̂ for the regenerated entries wherever the denominators of the symbolic inverse do "
         "not vanish, and unconditionally for real symmetric K and positive ρ (denominators are proved non-zero); formulate = vector "
         "expression ∘ (library's K, P parametrisations), hence the equation holds for formulate(n, n_R) with real parameters (relativistic: "
@@ -579,12 +603,29 @@ MANIFEST = {
         "own call does not return (sympy's default symbolic inverse does not finish, notes/findings_C10.md; probed with a cap every "
         "thorough run), so its residuals are evaluated with the library's code unchanged but sympy's inversion method replaced by the "
         "adjugate method, and the Lean cover is the all-n theorem only; the argument-honouring fact is checked for the translated "
-        "configurations by the kernel and for every phase-space implementation of dynamics/phasespace.py by the oracle."
+        "configurations by the kernel and for every phase-space implementation of dynamics/phasespace.py by the oracle. "
+        "Histories (Props/C10History.lean, Model/C10History.lean): formulate is modelled as a call that consults a process-global "
+        "expression cache keyed on (L, radius, key(factor object)); 9 theorems (+3 lemmas in Lemmas/C10History.lean): for EVERY key function that is injective on factor "
+        "objects and every history of calls in one process, each call returns what a fresh process returns for its arguments "
+        "(history_pure, history_call_k), hence every width / form factor / phase-space node of every call carries exactly the factor "
+        "OBJECT, L and radius passed to that call (history_honours, fresh_covers: non-vacuous), and kernel-checked witnesses that "
+        "the key 'qualified name' (two closures of one factory) breaks both (qualname_key_witness, qualname_key_dishonours). Tie: on "
+        "every run seeded histories (2 fixed + 2/10 random, 50/200 calls: all four classes, parametrize on/off, hat on/off, "
+        "n, n_R in {1,2}(,3); factors = library classes, marker class, closures of one factory, lambdas of one scope, named functions, "
+        "functools.partial, callable instances, bound methods, chew_mandelstam_s_wave; L / radius as numbers and as marker symbols incl. "
+        "equal names with different assumptions) run in worker processes on the real code and on the Lean driver; skeletons compared "
+        "call by call; for every call (a) occurrences by object identity, (b) the entries against an independent numpy solution of "
+        "the K-matrix equation with the passed object called directly, (c) a canonical digest against the same call in the reversed "
+        "history (all calls) and in a fresh process (10/40 calls). Bounded: the model's skeleton abstracts the algebra of the entries "
+        "(that is Props/C10.lean); fresh-process purity for a subset of the calls per run. Two CLASSES with one qualified name are "
+        "confused by the unchanged library (notes/findings_C10.md): recorded as `observations`, outside the verdict."
     ),
     "level_note": (
         "Trusted: Lean kernel + Mathlib (axioms propext, Classical.choice, Quot.sound); the translator incl. leaf abstraction of "
         "FormFactor / phase-space nodes (validated each run against the real lambdified code); the occurrence collector (preorder "
         "traversal + EnergyDependentWidth.phsp_factor attribute); sympy's symbolic inverse, xreplace/doit and numpy are executed, not "
-        "modelled. `_create_matrices` returns cached mutable matrices for parametrize=False: call histories are outside this property."
+        "modelled. `_create_matrices` returns cached mutable matrices for parametrize=False: a caller MUTATING a returned template is "
+        "outside this property (histories without mutation are covered). History tie trusts the canonicaliser / digest of "
+        "tools/corr/C10_history.py and numpy's linear solver."
     ),
 }
